@@ -60,7 +60,9 @@ class ForLoop:
         self.name = i.name
         self.indexed_symbols = OrderedDict()
 
-    def register_indexed_symbol(self, e, index_function, transpose, tree, index_expr=None):
+    def register_indexed_symbol(
+        self, e, index_function, transpose, tree, index_expr=None, dim=None
+    ):
         if isinstance(index_expr, ca.MX) and index_expr is not self.index_variable:
             F = ca.Function("index_expr", [self.index_variable], [index_expr])
             # expr = lambda ar: np.array([F(a)[0] for a in ar], dtype=int)
@@ -69,6 +71,12 @@ class ForLoop:
             indices = np.array(res[0].T, dtype=int)
         else:
             indices = self.values
+        if dim is not None and (np.any(indices < 1) or np.any(indices > dim)):
+            raise ValueError(
+                "Index of symbol {} in for loop over {} is out of bounds. "
+                "Index should be in range [1,{}] "
+                "(Modelica uses 1-based indexing).".format(tree.name, self.name, dim)
+            )
         self.indexed_symbols[e] = ForLoopIndexedSymbol(tree, transpose, index_function(indices - 1))
 
 
@@ -842,6 +850,7 @@ class Generator(TreeListener):
 
         # Check whether we loop over an index of this symbol
         indices = []
+        index_dims = []
         for_loop = None
         for i, (index_array, shape) in enumerate(zip(tree.indices, shapes)):
             if len(index_array) > len(shape):
@@ -899,11 +908,38 @@ class Generator(TreeListener):
                         sl = sl - 1
                     elif isinstance(sl, slice):
                         # Modelica indexing starts from one;  Python from zero.
-                        sl = slice(None if sl.start is None else sl.start - 1, sl.stop, sl.step)
+                        first = 1 if sl.start is None else sl.start
+                        last = dim if sl.stop is None else sl.stop
+                        if isinstance(first, int) and isinstance(last, int) and first > last:
+                            # An empty Modelica range selects nothing. Do not let negative
+                            # bounds wrap around in Python.
+                            sl = slice(0, 0, sl.step)
+                        elif (
+                            isinstance(first, int)
+                            and isinstance(last, int)
+                            and (first <= 0 or last > dim)
+                        ):
+                            symbol_name = (
+                                s.name()
+                                if len(tree.indices) == 1
+                                else s.name().split(".")[i] + " in nested symbol " + s.name()
+                            )
+                            raise ValueError(
+                                "Slice {}:{} of symbol {} is out of bounds. "
+                                "Slice should be within range [1,{}] "
+                                "(Modelica uses 1-based indexing).".format(
+                                    first, last, symbol_name, dim
+                                )
+                            )
+                        else:
+                            sl = slice(
+                                None if sl.start is None else sl.start - 1, sl.stop, sl.step
+                            )
                     else:
                         for_loop = self.for_loops[-1]
 
                 indices.append(sl)
+                index_dims.append(dim)
 
         if for_loop is not None:
             if isinstance(indices[0], ca.MX):
@@ -926,7 +962,7 @@ class Generator(TreeListener):
                 # map the for loop over it
                 if np.prod(s.shape) != 0:
                     for_loop.register_indexed_symbol(
-                        indexed_symbol, index_function, True, tree, indices[0]
+                        indexed_symbol, index_function, True, tree, indices[0], index_dims[0]
                     )
             else:
                 s = ca.transpose(s[indices[0], :])
@@ -936,7 +972,12 @@ class Generator(TreeListener):
 
                 if np.prod(s.shape) != 0:
                     for_loop.register_indexed_symbol(
-                        indexed_symbol, lambda i: (indices[0], i), False, tree, indices[1]
+                        indexed_symbol,
+                        lambda i: (indices[0], i),
+                        False,
+                        tree,
+                        indices[1],
+                        index_dims[1],
                     )
             return indexed_symbol
         else:
